@@ -186,6 +186,38 @@ def _gen_threads(seed: int, run: int, tier: str, rng: Any) -> dict:
         for e in extra:
             t["ops"].insert(rng.randint(0, len(t["ops"])), e)
         t["ops"] = t["ops"][:6]
+    if rng.random() < 0.55:
+        # focused scripts: readers refresh the cache while writers finish shared trials and
+        # read them back at once (a late merge of an older fetch must never win)
+        shared = [o["as"] for o in plan["setup"] if o["op"] == "create_new_trial" and not o.get("template")]
+        nobj = len(plan["setup"][0]["directions"])
+        while len(shared) < 2:
+            h = "T%d" % (len([o for o in plan["setup"] if o["op"] == "create_new_trial"]))
+            plan["setup"].append({"op": "create_new_trial", "study": "S0", "as": h})
+            shared.append(h)
+        names = sorted(plan["tasks"])
+        uid = [1000]
+
+        def val() -> list:
+            uid[0] += 1
+            return [cf(float(uid[0])) for _ in range(nobj)]
+
+        for i, n in enumerate(names):
+            script: list[dict] = []
+            if i == 0:
+                for _ in range(rng.randint(2, 3)):
+                    script.append({"op": "get_all_trials", "study": "S0", "states": rng.choice([None, ["RUNNING", "WAITING"], ["COMPLETE"]]), "deepcopy": rng.random() < 0.5})
+            else:
+                th = shared[(i - 1) % len(shared)]
+                w = rng.choice(["state", "state", "attr"])
+                if w == "state":
+                    script.append({"op": "set_trial_state_values", "trial": th, "state": "COMPLETE", "values": val()})
+                else:
+                    script.append({"op": "set_trial_user_attr", "trial": th, "key": "a", "value": "%s%d" % (n, uid[0])})
+                script.append({"op": "get_all_trials", "study": "S0", "states": rng.choice([None, ["COMPLETE"], ["RUNNING", "WAITING"]]), "deepcopy": rng.random() < 0.5})
+                if rng.random() < 0.6:
+                    script.append({"op": "get_trial", "trial": th})
+            plan["tasks"][n]["ops"] = script
     plan["check"] = ID
     plan["cfg"]["deployment"] = kind
     plan["cfg"]["mode"] = "threads"
